@@ -16,7 +16,6 @@ for f in HdVerif/Props/C*.lean; do
   m="HdVerif.Props.$(basename "$f" .lean)"
   lake build "$m" >/dev/null 2>&1 && echo "setup: built $m" || echo "setup: $m does not build (its check will report it)"
 done
-for d in Drivers/C*.lean; do   # driver dependencies (models) are built by the property modules above
-  :
-done
+# what the drivers import (model / generated modules that no property module imports would otherwise be missing)
+lake build $(grep -h '^import HdVerif' Drivers/C*.lean | awk '{print $2}' | sort -u) >/dev/null 2>&1 || echo "setup: some driver imports do not build (the checks report it)"
 exit $rc
